@@ -144,7 +144,26 @@ def st_lte_cubic(draw):
 
 
 @st.composite
+def st_manager_case(draw):
+    """WallGoManager.wallSpeedLTE on ONE manager that is set up several times (same registered model, other nucleation
+    temperatures, without registering again - the way a scan over Tn is written), asked once or twice per set-up."""
+    from vlib import zoo_potentials as zp
+
+    spec = draw(zp.st_cubic1_margin(min_alpha=2e-3))
+    cf = zp.Cubic1(spec["p"])
+    tn_lo, tn_hi = cf.T0 * 1.02, min(cf.Tc * 0.995, cf.T1 / 1.10)   # both phases exist with a margin (by construction)
+    deltas = [spec["delta"]]
+    for _ in range(draw(st.integers(1, 2))):
+        Tn = tn_lo + draw(_f(0.0, 1.0)) * (tn_hi - tn_lo)
+        deltas.append(round(1.0 - Tn / cf.Tc, 6))
+    return {"kind": "manager", "spec": spec, "deltas": deltas, "repeat": draw(st.booleans()),
+            "reregister": draw(st.sampled_from([False, False, True]))}
+
+
+@st.composite
 def st_case(draw, tier):
+    if draw(st.sampled_from([False] * 19 + [True])):
+        return draw(st_manager_case())
     k = draw(st.integers(0, 39))
     if k < 14:
         spec = draw(st_lte_template("template"))
@@ -227,9 +246,63 @@ def cheb_nodes(a, b, n):
 # ---------------------------------------------------------------------------------------------
 # check
 # ---------------------------------------------------------------------------------------------
+def check_manager(case) -> Verdict:
+    """manager-lte: what WallGoManager.wallSpeedLTE() returns after the k-th set-up on one manager is the LTE velocity
+    of the CURRENT equation of state: equal (1e-12) to that of a fresh manager set up once with the same input, and -
+    the property's literal form - if it lies strictly between the sentinels the manager's own matching at that
+    velocity has T+ gamma+ = T- gamma- (measured 1e-8 of T+ gamma+; bound 1e-5)."""
+    import WallGo
+    from vlib import zoo_potentials as zp
+
+    v = Verdict()
+    spec0 = case["spec"]
+    v.label("kind:manager", f"setups:{len(case['deltas'])}", f"reregister:{case['reregister']}")
+    manager = None
+    for k, delta in enumerate(case["deltas"]):
+        spec = dict(spec0, delta=delta)
+        try:
+            if manager is None or case["reregister"]:
+                manager = zp.setup_manager(spec, None, manager=manager)[0]
+            else:
+                info, dset = zp.phase_info(spec)
+                manager.setupThermodynamicsHydrodynamics(info, dset)
+            got = [manager.wallSpeedLTE() for _ in range(2 if case["repeat"] else 1)]
+            fresh = zp.setup_manager(spec, None)[0].wallSpeedLTE()
+        except (WallGo.WallGoError, AssertionError, RuntimeError) as exc:
+            v.label(f"manager-outcome:{type(exc).__name__}")
+            return v
+        cls = f"manager/setup#{k + 1}" + ("/reregistered" if case["reregister"] else "")
+        v.checked("manager-lte")
+        for j, g in enumerate(got):
+            if not (_is_num(g) and _is_num(fresh) and abs(float(g) - float(fresh)) <= 1e-12 * max(abs(float(fresh)), 1e-300)):
+                v.fail("manager-lte", cls + "/vs-fresh-manager",
+                       f"wallSpeedLTE() call {j + 1} after set-up {k + 1} (Tn = Tc(1-{delta})) returned {g!r}; a fresh manager "
+                       f"set up once with the same input returns {fresh!r}", got=g, fresh=fresh)
+                return v
+        g = float(got[-1])
+        if 0.0 < g < 1.0:
+            if k > 0:
+                v.nontrivial = True
+            vp, vm, Tp, Tm = manager.hydrodynamics.findMatching(g)
+            if all(_is_num(x) for x in (vp, vm, Tp, Tm)):
+                S = S_abs(float(vp), float(vm), float(Tp), float(Tm)) / (float(Tp) * gam(float(vp)))
+                v.info["manager_S_rel"] = max(abs(S), v.info.get("manager_S_rel", 0.0))
+                if abs(S) > 1e-5:
+                    v.fail("manager-lte", cls + "/entropy",
+                           f"wallSpeedLTE() = {g!r} after set-up {k + 1}, but the manager's matching at that velocity has "
+                           f"(T+ gamma+ - T- gamma-)/(T+ gamma+) = {S:.3e}", got=g, S=S)
+                    return v
+            v.label("manager-lte:interior")
+        else:
+            v.label("manager-lte:sentinel")
+    return v
+
+
 def check_case(case) -> Verdict:
     from WallGo import WallGoError
 
+    if case.get("kind") == "manager":
+        return check_manager(case)
     v = Verdict()
     spec = case["eos"]
     rtol, atol = (float(x) for x in case["tol"])
